@@ -12,7 +12,7 @@ LINK_PROFILE = {"linkable": True, "missing_key": 0.0, "paths": 0.15, "partial": 
 
 def linkable_dirs():
     from . import gen
-    return [d for d in gen.DIRS if d != ".."]
+    return [d for d in gen.DIRS if d != ".." and all(ord(c) < 128 for c in d)]
 
 
 def prepare(case, ji, seed):
